@@ -270,26 +270,26 @@ theorem depOhs_agree {sa sm : Lbl → Option (TStat κ)} (h : ∀ l, StAgree (sa
     simp only [depOhs, hd, ih]
 
 theorem buildTarget_depFailed (P : Params κ) (cfg : Cfg) (defs : Defs) (fuel : Nat) (t : Target) (s : BState κ)
-    (h : depsOk s.st t.deps = false) : buildTarget P cfg defs fuel t s = failT s t.label := by
-  simp [buildTarget, h]
+    (h : depsOk s.st t.deps = false) : buildTargetNoPre P cfg defs fuel t s = failT s t.label := by
+  simp [buildTargetNoPre, h]
 
 theorem buildTarget_noHash (P : Params κ) (cfg : Cfg) (defs : Defs) (fuel : Nat) (t : Target) (s : BState κ)
-    (h : depsOk s.st t.deps = true) (h2 : depOhs s.st t.hdeps = none) : buildTarget P cfg defs fuel t s = failT s t.label := by
-  simp [buildTarget, h, h2]
+    (h : depsOk s.st t.deps = true) (h2 : depOhs s.st t.hdeps = none) : buildTargetNoPre P cfg defs fuel t s = failT s t.label := by
+  simp [buildTargetNoPre, h, h2]
 
 theorem buildTarget_hit (P : Params κ) (cfg : Cfg) (defs : Defs) (fuel : Nat) (t : Target) (s s' : BState κ) (ohs : List (OH κ))
     (h : depsOk s.st t.deps = true) (h2 : depOhs s.st t.hdeps = some ohs)
-    (h3 : tryHit P cfg t (P.K (keyState t s.fs ohs)) s = some s') : buildTarget P cfg defs fuel t s = s' := by
-  simp [buildTarget, h, h2, h3]
+    (h3 : tryHit P cfg t (P.K (keyState t s.fs ohs)) s = some s') : buildTargetNoPre P cfg defs fuel t s = s' := by
+  simp [buildTargetNoPre, h, h2, h3]
 
 theorem buildTarget_min_exec (P : Params κ) (cfg : Cfg) (defs : Defs) (fuel : Nat) (t : Target) (s s1 : BState κ) (ohs : List (OH κ))
     (hm : cfg.minimal = true) (h : depsOk s.st t.deps = true) (h2 : depOhs s.st t.hdeps = some ohs)
     (h3 : tryHit P cfg t (P.K (keyState t s.fs ohs)) s = none) (hl : loadDepList P cfg defs fuel t.ldeps s = (s1, true)) :
-    buildTarget P cfg defs fuel t s =
+    buildTargetNoPre P cfg defs fuel t s =
       (if (execTarget P cfg defs t (P.K (keyState t s.fs ohs)) (s.cache.taint t.label) s1).2 = true
         then (execTarget P cfg defs t (P.K (keyState t s.fs ohs)) (s.cache.taint t.label) s1).1
         else failT (execTarget P cfg defs t (P.K (keyState t s.fs ohs)) (s.cache.taint t.label) s1).1 t.label) := by
-  simp only [buildTarget, h, h2, h3, hm, hl, ↓reduceIte, Bool.true_eq_false, Bool.not_true, Bool.false_eq_true]
+  simp only [buildTargetNoPre, h, h2, h3, hm, hl, ↓reduceIte, Bool.true_eq_false, Bool.not_true, Bool.false_eq_true]
 
 /-- `execTarget` does not look at `cfg.minimal` -/
 theorem execTarget_mode (P : Params κ) (cfg : Cfg) (m : Bool) (defs : Defs) (t : Target) (k : κ) (clr : Bool) (s : BState κ) :
@@ -453,14 +453,14 @@ theorem exec_snd_agree {P : Params κ} (hG : Good P) (cfg : Cfg) (defs : Defs) (
       exact fsAfter_agree hG defs t s1.fs s2.fs hw hv hx1 o.path (List.mem_map.2 ⟨o, ho, rfl⟩)
     rw [h1, h2]
 
-/-- **the step of the simulation**: both modes process the next target of the order -/
-theorem step_rel {P : Params κ} (hG : Good P) (hfx : P.fx.minValidate = true) (hro : P.fx.rerunOnce = true) (hlf : P.fx.loadFault = true)
+/-- the step of the simulation, after the optional pre-loading of dependency outputs for output checks -/
+theorem step_rel_core {P : Params κ} (hG : Good P) (hfx : P.fx.minValidate = true) (hro : P.fx.rerunOnce = true) (hlf : P.fx.loadFault = true)
     (cfg : Cfg) {defs : Defs} {order : List Lbl} {outP : Path → Prop} (hwf : WF defs order) (hwm : WFM defs order)
     (hO : OutDisc outP defs order) (fuelA fuelM : Nat)
     (pre : List Lbl) (l : Lbl) (suf : List Lbl) (ho : order = pre ++ l :: suf) (t : Target) (ht : defs l = some t)
     (hfuel : t.ldeps.length ≤ fuelM) {sa sm : BState κ} (hcas : CasOK sa.cache) (hR : Rel P outP defs sa sm pre) :
     Rel P outP defs (buildTarget P { cfg with minimal := false } defs fuelA t sa)
-        (buildTarget P { cfg with minimal := true } defs fuelM t sm) (pre ++ [l]) ∧
+        (buildTargetNoPre P { cfg with minimal := true } defs fuelM t sm) (pre ++ [l]) ∧
       CasOK (buildTarget P { cfg with minimal := false } defs fuelA t sa).cache := by
   have hlo : l ∈ order := by rw [ho]; simp
   have hpo : ∀ d ∈ pre, d ∈ order := fun d hd => by rw [ho]; simp [hd]
@@ -491,7 +491,7 @@ theorem step_rel {P : Params κ} (hG : Good P) (hfx : P.fx.minValidate = true) (
       tryHit P { cfg with minimal := false } t (P.K (keyState t sa.fs ohs)) sa = none →
       ∃ sm1, Rel P outP defs sa sm1 pre ∧ sm1.st l = sm.st l ∧ viewAt defs t sm1.fs = viewAt defs t sa.fs ∧
         (∀ c ∈ t.checks, c.1 ∉ outPaths t ∧ sm1.fs c.1 = sa.fs c.1) ∧
-        buildTarget P { cfg with minimal := true } defs fuelM t sm =
+        buildTargetNoPre P { cfg with minimal := true } defs fuelM t sm =
           (if (execTarget P cfg defs t (P.K (keyState t sa.fs ohs)) (sa.cache.taint t.label) sm1).2 = true
             then (execTarget P cfg defs t (P.K (keyState t sa.fs ohs)) (sa.cache.taint t.label) sm1).1
             else failT (execTarget P cfg defs t (P.K (keyState t sa.fs ohs)) (sa.cache.taint t.label) sm1).1 t.label) := by
@@ -657,6 +657,40 @@ theorem step_rel {P : Params κ} (hG : Good P) (hfx : P.fx.minValidate = true) (
         rw [hca]; exact hcas
 
 /-! ### whole builds -/
+
+/-- **the step of the simulation**: both modes process the next target of the order. In minimal mode a target with output
+    checks first loads the outputs of its direct dependencies: nothing is re-run, the relation to the `all` run is kept. -/
+theorem step_rel {P : Params κ} (hG : Good P) (hfx : P.fx.minValidate = true) (hro : P.fx.rerunOnce = true) (hlf : P.fx.loadFault = true)
+    (cfg : Cfg) {defs : Defs} {order : List Lbl} {outP : Path → Prop} (hwf : WF defs order) (hwm : WFM defs order)
+    (hO : OutDisc outP defs order) (fuelA fuelM : Nat)
+    (pre : List Lbl) (l : Lbl) (suf : List Lbl) (ho : order = pre ++ l :: suf) (t : Target) (ht : defs l = some t)
+    (hfuel : t.ldeps.length ≤ fuelM) {sa sm : BState κ} (hcas : CasOK sa.cache) (hR : Rel P outP defs sa sm pre) :
+    Rel P outP defs (buildTarget P { cfg with minimal := false } defs fuelA t sa)
+        (buildTarget P { cfg with minimal := true } defs fuelM t sm) (pre ++ [l]) ∧
+      CasOK (buildTarget P { cfg with minimal := false } defs fuelA t sa).cache := by
+  by_cases hc : (true && P.fx.checkDeps && !t.checks.isEmpty && depsOk sm.st t.deps) = true
+  · have hlo : l ∈ order := by rw [ho]; simp
+    have hpo : ∀ d ∈ pre, d ∈ order := fun d hd => by rw [ho]; simp [hd]
+    obtain ⟨hld, _⟩ := hwm l hlo t ht
+    have hdeps : ∀ d ∈ t.deps, d ∈ pre := hwf.topo pre l suf ho t ht
+    have hdok : depsOk sm.st t.deps = true := by
+      simp only [Bool.and_eq_true] at hc; exact hc.2
+    have hsmok : ∀ d ∈ t.ldeps, ∃ m, sm.st d = some m ∧ m.ok = true := by
+      intro d hd; rw [hld] at hd
+      exact depsOk_mem hdok d hd
+    obtain ⟨sm1, hload, hR1, _, _, _, _⟩ :=
+      loadDepList_restores hro hlf (cfg := { cfg with minimal := true }) hwf hO hpo t.ldeps fuelM sm hfuel
+        (fun d hd => hdeps d (by rw [← hld]; exact hd)) hsmok hR
+    have e : buildTarget P { cfg with minimal := true } defs fuelM t sm =
+        buildTargetNoPre P { cfg with minimal := true } defs fuelM t sm1 := by
+      simp only [buildTarget, hc, ↓reduceIte, hload, Bool.not_true, Bool.false_eq_true]
+    rw [e]
+    exact step_rel_core hG hfx hro hlf cfg hwf hwm hO fuelA fuelM pre l suf ho t ht hfuel hcas hR1
+  · have e : buildTarget P { cfg with minimal := true } defs fuelM t sm =
+        buildTargetNoPre P { cfg with minimal := true } defs fuelM t sm := by
+      simp only [buildTarget, hc, Bool.false_eq_true, ↓reduceIte]
+    rw [e]
+    exact step_rel_core hG hfx hro hlf cfg hwf hwm hO fuelA fuelM pre l suf ho t ht hfuel hcas hR
 
 theorem length_le_of_nodup_subset : ∀ (l m : List Lbl), l.Nodup → (∀ x ∈ l, x ∈ m) → l.length ≤ m.length
   | [], _, _, _ => by simp
